@@ -134,7 +134,7 @@ def cases(tier, seed):
                     o.append(rng.choice(["--neutraln", "--neutralc"]))
                 out.append({"kind": "mixedopts", "w": "synth", "seed": seed * 6007 + len(out), "ff": ff, "opts": o,
                             "p": {"variant_prob": 0.0, "na": False, "waters": [0, 3], "no_variants": [], "minlen": 4,
-                                  "maxlen": 7, "pool": ["ASP", "GLU", "HIS", "CYS", "TYR", "LYS", "ARG", "ASP", "GLU",
+                                  "carboxyl_asym_prob": 0.5, "maxlen": 7, "pool": ["ASP", "GLU", "HIS", "CYS", "TYR", "LYS", "ARG", "ASP", "GLU",
                                                         "ALA", "SER", "ASN", "GLN", "THR"]}})
     # --assign-only on complete, fully protonated structures (pdb2pqr's own --pdb-output of a full run): every
     # tautomer / protonation state the pipeline itself produces must be accepted back
